@@ -44,4 +44,18 @@ if ! cargo build --offline --quiet --profile "$PROFILE" --bin "$BIN" 2> "$HERE/m
   fi
 fi
 mkdir -p "$HERE/evidence" "$HERE/replays"
+if [ "$ID" = "C18" ] || [ "$ID" = "C01" ]; then
+  # the rand shim is a model of rand 0.8: bind it to the real crate and run the raw-word part
+  # of C18 (reservoir) / C01 (cuckoo) on the real RngCore path (rebuilds against /repo's working tree)
+  if ! (cd "$HERE/mc-real" && cargo build --offline --quiet --release 2> "$HERE/mc/target/build-mc-real.log"); then
+    echo "MACHINERY: build of mc-real failed, see mc/target/build-mc-real.log" >&2
+    tail -30 "$HERE/mc/target/build-mc-real.log" >&2
+    exit 2
+  fi
+  OUT="$("$HERE/mc-real/target/release/mc-real" "$ID")"; RC=$?
+  echo "$OUT" | grep -E "^(VIOLATION|mc-real ok)" || true
+  if [ $RC -eq 1 ]; then exit 1; fi
+  if [ $RC -ne 0 ]; then echo "MACHINERY: mc-real exit $RC" >&2; exit 2; fi
+  export VERIF_MCREAL_SUMMARY="$(echo "$OUT" | grep '^mc-real ok' | head -1)"
+fi
 exec "$HERE/mc/target/$PROFILE/$BIN" --tier "$TIER" "$@"
